@@ -48,6 +48,7 @@ inductive P where
   | A (g a : Nat)
   | X (v g a : Nat)
   | Y (v g a : Nat)
+  | K (v g a b : Nat)
   | Z (kv g1 t g2 ls la lb lr : Nat)
   | F (n id : Nat)
   | Q (cs : List P)
@@ -131,6 +132,14 @@ partial def parseP (depth : Nat) (cs : List Char) : Option (P × List Char) :=
     let (g, r) ← takeNum r; let r ← eat '.' r
     let (a, r) ← takeNum r
     pure (.Y v g a, r)
+  | 'K' :: r => do
+    let (v, r) ← takeNum r
+    if v > 1 then none else
+    let r ← eat '.' r
+    let (g, r) ← takeNum r; let r ← eat '.' r
+    let (a, r) ← takeNum r; let r ← eat '.' r
+    let (b, r) ← takeNum r
+    pure (.K v g a b, r)
   | 'Z' :: r => do
     let (kv, r) ← takeNum r
     if kv / 10 > 3 || kv % 10 > 2 then none else
@@ -177,6 +186,7 @@ partial def gatesOf : P → List Nat
   | .A g _ => [g]
   | .X _ g _ => [g]
   | .Y _ g _ => [g]
+  | .K _ g _ _ => [g]
   | .Z _ g1 t g2 .. => [g1, t, g2]
   | .V _ c => gatesOf c
   | .U c => gatesOf c
@@ -244,6 +254,8 @@ structure Rec where
   /-- `tag`: run by a task that is not wrapped but enters the owner for this step (`Step.enter`): the spawned task of
   an async derived value running / re-running its fetcher -/
   guarded : Bool := false
+  /-- is the poll inside a `Sandboxed` wrapper? (`K`: no) -/
+  sandboxed : Bool := true
 
 /-- a Suspend outside Suspense: a chunk of the response stream -/
 structure Node where
@@ -357,6 +369,14 @@ partial def compile (base r : Nat) (io : Bool) (ctx : Ctx) (acc : CAcc) : P → 
     -- `reactive_graph::spawn` = `Sandboxed` future (`poll` sets the arena)
     let ctx := { ctx with need := ctx.need ++ [g] }
     { acc with seen := acc.seen ++ [g], recs := acc.recs ++ [{ mkRec a .aread ctx with wrapped := v == 1 }] }
+  | .K v g a b =>
+    -- polled by the handler side itself, OUTSIDE `Sandboxed`: v=0 a `ScopedFuture` (wrapped, not sandboxed), v=1 a bare
+    -- future whose body re-enters its owner (`Owner::with`: guarded); either way `Owner::with` selects owner AND arena,
+    -- also when that owner already is the thread's current one
+    let ctx := { ctx with need := ctx.need ++ [g] }
+    { acc with seen := acc.seen ++ [g],
+               recs := acc.recs ++ [{ mkRec a .tag ctx with guarded := v == 1, sandboxed := false },
+                                    { mkRec b .aread ctx with wrapped := true, guarded := v == 1, sandboxed := false }] }
   | .Z _ g1 t g2 ls la lb lr =>
     -- every run of the fetcher, first or re-run, from the constructor or from the spawned task:
     -- `owner.with_cleanup(|| subscriber.with_observer(|| ScopedFuture::new(fun())))` — sync part under `Owner::with`,
@@ -445,9 +465,9 @@ def runEnabled (d : DS) (r : Nat) (q : RQ) (atStart : Bool := false) : DS × RQ 
       | .tag =>
         let t : Task :=
           if rec.guarded then
-            { req := r, captured := { arena := some r }, wrapped := false, sandboxed := true,
+            { req := r, captured := { arena := some r }, wrapped := false, sandboxed := rec.sandboxed,
               steps := [.enter rec.scope none [.readCtx rec.id]] }
-          else { req := r, captured := cap, wrapped := true, sandboxed := true, steps := [.simple (.readCtx rec.id)] }
+          else { req := r, captured := cap, wrapped := true, sandboxed := rec.sandboxed, steps := [.simple (.readCtx rec.id)] }
         (d.exec t, out ++ [{ rec with done := true }])
       | .exposed =>
         let d := d.exec { req := r, captured := cap, wrapped := false, sandboxed := true, steps := [.simple (.readCtx rec.id)] }
@@ -460,7 +480,11 @@ def runEnabled (d : DS) (r : Nat) (q : RQ) (atStart : Bool := false) : DS × RQ 
         let foreign := d.st.amb.owner != some q.root
         ({ d with siteBad := d.siteBad || (foreign && rec.hasSusp) }, out ++ [{ rec with done := true }])
       | .aread =>
-        (d.exec { req := r, captured := cap, wrapped := rec.wrapped, sandboxed := true, steps := [.simple (.readAmb rec.id)] },
+        (d.exec (if rec.guarded then
+            { req := r, captured := {}, wrapped := false, sandboxed := rec.sandboxed,
+              steps := [.enter rec.scope none [.readAmb rec.id]] }
+          else { req := r, captured := cap, wrapped := rec.wrapped, sandboxed := rec.sandboxed,
+                 steps := [.simple (.readAmb rec.id)] }),
           out ++ [{ rec with done := true }])
       | .action =>
         -- the action's future: `reactive_graph::spawn` (Sandboxed, no ScopedFuture): reads the ambient owner
@@ -495,6 +519,11 @@ def endStream (d : DS) (r : Nat) (q : RQ) : DS × RQ :=
     if rec.kind == .cleanup && !rec.done then
       d.exec { req := r, captured := { arena := some r }, wrapped := false, sandboxed := true, steps := [.simple (.readAmb rec.id)] }
     else d
+  -- the hydration chunks come from the shared context `build_response` captured under the request's root
+  -- (`chunks` closure), whenever the stream builder asks for them (at once when streaming; after the whole app in
+  -- async mode): a step under the root owner, not a lookup of the ambient owner
+  let d := d.exec { req := r, captured := {}, wrapped := false, sandboxed := true,
+                    steps := [.enter q.root none [.readAmb 1000000]] }
   let d := runParked d q.root r
   let d := d.exec { req := r, captured := {}, wrapped := false, sandboxed := false, steps := [.unset q.root] }
   (d, { q with ended := true })
@@ -551,7 +580,7 @@ def showObs (d : DS) (r : Nat) (q : RQ) : String :=
   let isARead (leaf : Nat) := q.recs.any fun rec => rec.kind == .aread && rec.id == leaf
   let isCleanup (leaf : Nat) := q.recs.any fun rec => rec.kind == .cleanup && rec.id == leaf
   let m := d.st.mem.log.foldl (init := ([] : List (Nat × List String))) fun m ob =>
-    if ob.req != r then m else
+    if ob.req != r || ob.leaf == 1000000 then m else
     let seen :=
       if isARead ob.leaf then
         match ob.arena with
@@ -565,7 +594,12 @@ def showObs (d : DS) (r : Nat) (q : RQ) : String :=
         | some e => s!"{e.val / 1000}.{e.val % 1000}"
         | none => "-"
     insertLeaf ob.leaf seen m
-  s!"r{r}:[" ++ ";".intercalate (m.map fun (l, ts) => s!"{l}=" ++ ",".intercalate ts) ++ "]"
+  let hyd := match d.st.mem.log.find? (fun ob => ob.req == r && ob.leaf == 1000000) with
+    | some ob => match ob.owner.bind d.world.reqOf with
+      | some x => s!"h={x}"
+      | none => "h=-"
+    | none => "h=-"
+  s!"r{r}:[" ++ ";".intercalate (m.map fun (l, ts) => s!"{l}=" ++ ",".intercalate ts) ++ "]" ++ hyd
 
 def idx? (d : DS) (s : String) : Option (Nat × RQ) := do
   let r ← s.toNat?
@@ -581,11 +615,11 @@ def step (d : DS) (line : String) : DS × String :=
   | ["req", rs, mode, ps] =>
     match rs.toNat?, parseProg ps with
     | some r, some p =>
-      if r != d.reqs.length || r > 2 || !(mode == "io" || mode == "ooo") then (d, "bad-op") else
+      if r != d.reqs.length || r > 2 || !(mode == "io" || mode == "ooo" || mode == "async") then (d, "bad-op") else
       let root := d.world.owners.length
-      let acc := compile (root + 1) r (mode == "io") { scope := root, old := d.old } {} p
+      let acc := compile (root + 1) r (mode != "ooo") { scope := root, old := d.old } {} p
       let w : World := { d.world with owners := d.world.owners ++ [{ req := r, parent := none, arena := r }] ++ acc.owners }
-      let q : RQ := { io := mode == "io", gates := gatesOf p, endGates := (gatesOf p).filter (fun g => !(idleGates p).contains g), old := d.old, recs := acc.recs, nodes := acc.nodes, root := root,
+      let q : RQ := { io := mode != "ooo", gates := gatesOf p, endGates := (gatesOf p).filter (fun g => !(idleGates p).contains g), old := d.old, recs := acc.recs, nodes := acc.nodes, root := root,
                       provides := (root, r * 1000) :: acc.provides }
       ({ d with world := w, reqs := d.reqs ++ [q] }, "ok")
     | _, _ => (d, "bad-op")
@@ -655,14 +689,14 @@ def w3 := ["case f3", "req 0 io D1.2", "req 1 io E1", "start 0", "start 1", "dro
 def w4 := ["case f4", "req 0 io Q(C1,U(S1.2.3(E4)))", "req 1 io Q(C1,U(S1.2.3(E4)))", "start 0", "start 1", "ps 0", "ps 1",
            "abort 0 1", "end"]
 
-#guard runLines true w1 == "r0:[1=0.0;2=0.0;3=0.0;4=1.0] r1:[1=1.0;2=1.0;3=1.0;4=1.0] ## fail unwrapped-stream-render"
-#guard runLines false w1 == "r0:[1=0.0;2=0.0;3=0.0;4=0.0] r1:[1=1.0;2=1.0;3=1.0;4=1.0] ## ok"
-#guard runLines true w2 == "r0:[1=0.0;2=0.0;3=0.0] r1:[1=1.0] ## fail late-owned-view"
-#guard runLines false w2 == "r0:[1=0.0;2=0.0;3=0.0] r1:[1=1.0] ## ok"
-#guard runLines true w3 == "r0:[2=1.0] r1:[1=1.0] ## fail action-future-unscoped"
-#guard runLines false w3 == "r0:[2=0.0] r1:[1=1.0] ## ok"
-#guard runLines true w4 == "r0:aborted r1:[1=a1;2=1.0;3=1.0;4=1.0] ## fail abort-cleanup-foreign-arena"
-#guard runLines false w4 == "r0:aborted r1:[1=a1;2=1.0;3=1.0;4=1.0] ## ok"
+#guard runLines true w1 == "r0:[1=0.0;2=0.0;3=0.0;4=1.0]h=0 r1:[1=1.0;2=1.0;3=1.0;4=1.0]h=1 ## fail unwrapped-stream-render"
+#guard runLines false w1 == "r0:[1=0.0;2=0.0;3=0.0;4=0.0]h=0 r1:[1=1.0;2=1.0;3=1.0;4=1.0]h=1 ## ok"
+#guard runLines true w2 == "r0:[1=0.0;2=0.0;3=0.0]h=0 r1:[1=1.0]h=1 ## fail late-owned-view"
+#guard runLines false w2 == "r0:[1=0.0;2=0.0;3=0.0]h=0 r1:[1=1.0]h=1 ## ok"
+#guard runLines true w3 == "r0:[2=1.0]h=0 r1:[1=1.0]h=1 ## fail action-future-unscoped"
+#guard runLines false w3 == "r0:[2=0.0]h=0 r1:[1=1.0]h=1 ## ok"
+#guard runLines true w4 == "r0:aborted r1:[1=a1;2=1.0;3=1.0;4=1.0]h=1 ## fail abort-cleanup-foreign-arena"
+#guard runLines false w4 == "r0:aborted r1:[1=a1;2=1.0;3=1.0;4=1.0]h=1 ## ok"
 
 /-- `lm_c20 old` runs the pre-repair table (to replay the old findings against an unrepaired tree) -/
 def main (args : List String) : IO Unit := runDriver step { old := args.contains "old" }
